@@ -144,6 +144,40 @@ func (c *countingCtx) Done() <-chan struct{} {
 	return c.done
 }
 
+// c17MissingDir: the store's directory is not there at the first Store (nothing can be written: the write is cut
+// short before its first byte). Then the directory appears and the same node is stored again: the name holds
+// nothing or the complete node at every point, and the later write repairs.
+func c17MissingDir(base string, acc *pairAcc, st *c17Stats) {
+	cfg := &world.Config{Name: "persist/file"}
+	for _, size := range []int{1, 4097} {
+		payload := c17Payload(size)
+		name := ref.Name(payload)
+		top, err := os.MkdirTemp(base, "m")
+		if err != nil {
+			return
+		}
+		dir := filepath.Join(top, "not", "yet", "there")
+		p := file.NewPersistForPath(dir)
+		serr := p.Store(ctx, name, payload)
+		atomic.AddInt64(&st.runs, 1)
+		desc := []string{fmt.Sprintf("node of %d bytes; Store into a directory that does not exist -> %v; the directory is created; Store again; Load", size, serr)}
+		got, lerr := p.Load(ctx, name)
+		if lerr == nil && !bytes.Equal(got, payload) {
+			acc.add(cfg, "C17", []explore.Finding{{Sig: "C17|partial-node-exposed|missing-directory", What: "after a Store into a missing directory, Load returned incomplete bytes", Detail: fmt.Sprintf("%d of %d bytes", len(got), size)}}, desc)
+		}
+		if serr == nil && (lerr != nil || !bytes.Equal(got, payload)) {
+			acc.add(cfg, "C17", []explore.Finding{{Sig: "C17|acknowledged-store-incomplete|missing-directory", What: "a Store that reported success is not completely loadable", Detail: fmt.Sprintf("load err %v", lerr)}}, desc)
+		}
+		os.MkdirAll(dir, 0o755)
+		serr2 := p.Store(ctx, name, payload)
+		got2, lerr2 := p.Load(ctx, name)
+		if serr2 != nil || lerr2 != nil || !bytes.Equal(got2, payload) {
+			acc.add(cfg, "C17", []explore.Finding{{Sig: "C17|re-store-does-not-repair|missing-directory", What: "storing the same node again after a Store that failed for want of its directory does not make it completely loadable", Detail: fmt.Sprintf("re-Store err %v; Load err %v, %d of %d bytes", serr2, lerr2, len(got2), size)}}, desc)
+		}
+		os.RemoveAll(top)
+	}
+}
+
 // c17Cancelled: Store of a node under a context that turns cancelled at its k-th observation, for every k up
 // to the number of observations an undisturbed Store makes (at least 0..3, so that a store that starts to look
 // at its context is covered from the first look on). Whatever Store answers, the name holds nothing or the
@@ -318,6 +352,7 @@ func C17(run *report.Run) {
 	acc := &pairAcc{}
 	st := &c17Stats{}
 	parallelFor(len(jobs), func(i int) { c17One(self, base, jobs[i].size, jobs[i].limit, jobs[i].mode, acc, st) })
+	c17MissingDir(base, acc, st)
 	obs := c17Cancelled(base, acc, st)
 	run.Extra["context_observations_of_an_undisturbed_store"] = obs
 	acc.flush(run)
